@@ -17,11 +17,11 @@ tests=$(cd "$tmp/r" && PYTHONPATH="$tmp/r/Lib" /venv/bin/python -m pytest -q -p 
 (cd "$tmp/r" && PYTHONPATH="$tmp/r/Lib" timeout 600 /venv/bin/python "$d/demo.py" >"$tmp/demo_mut.out" 2>&1); mut=$?
 res=""
 for id in $ids; do
-  out=$(cd "$here" && MC_EVIDENCE_DIR="$tmp/ev" VERIF_REPO="$tmp/r" ./check "$id" --tier "${SEED_TIER:-quick}" 2>&1); rc=$?
+  out=$(cd "$here" && MC_EVIDENCE_DIR="$tmp/ev" MC_REPLAY_DIR="$tmp/replays" VERIF_REPO="$tmp/r" ./check "$id" --tier "${SEED_TIER:-quick}" 2>&1); rc=$?
   nv=$(echo "$out" | grep -c '^VIOLATION')
   res="$res $id:rc=$rc,viol=$nv"
   if [ -n "${SEED_SHOW:-}" ]; then echo "$out" | grep '^VIOLATION' | head -3; fi
-  if [ "$nv" -gt 0 ] && [ -n "${SEED_KEEP:-}" ]; then mkdir -p "$d/replays"; for f in $(echo "$out" | grep '^VIOLATION' | head -2 | sed 's/.*replay=//'); do cp "$here/$f" "$d/replays/" 2>/dev/null; done; fi
+  if [ "$nv" -gt 0 ] && [ -n "${SEED_KEEP:-}" ]; then mkdir -p "$d/replays"; for f in $(echo "$out" | grep '^VIOLATION' | head -2 | sed 's/.*replay=//'); do cp "$f" "$d/replays/" 2>/dev/null; done; fi
 done
 echo "$(basename $(dirname $d))/$(basename $d): demo_clean_exit=$clean tests=[$tests] demo_changed_exit=$mut checks:$res"
 rm -rf "$tmp"
